@@ -19,13 +19,17 @@ class RelGen:
     def __init__(s, e, cfg):
         s.e = e; s.cfg = cfg
         styles = cfg.get('ws_styles', 1)
-        s.style = e.choose('ws', styles)          # 0: single spaces, 1: compact, 2: tabs, 3: newline + space, 4: bare newline
+        s.style = cfg['ws_style'] if 'ws_style' in cfg else e.choose('ws', styles)          # 0: single spaces, 1: compact, 2: tabs, 3: newline + space, 4: bare newline
     def ws(s, mandatory=False):
         st = s.style
         if st == 0: return [32]
         if st == 1: return [32] if mandatory else []
         if st == 2: return [9]
         if st == 4: return [10]
+        if st == 5:
+            # alternating: two blanks, one blank, two blanks, ... so that neighbouring relations are laid out differently
+            s.wsn = getattr(s, 'wsn', 0) + 1
+            return [32, 32] if s.wsn % 2 else [32]
         return [10, 32]
     def ident(s, name, first=alnum, rest=identch, maxlen=None):
         n = s.e.choose(name + 'len', maxlen or s.cfg.get('ident_chars', 1)) + 1
